@@ -127,6 +127,39 @@ let dp (lines : string list) =
             Hashtbl.replace datasets id rows;
             (* drop cached stores of a previous dataset with the same id *)
             go rest'
+          | "CSV" ->
+            (* CSV cid big nh ; then nh lines HDR n runes.. ; then NREC k ; then k lines REC n fields *)
+            let cid = next c in let big = (next c = "big") in let nh = next_int c in
+            let rec take_h k acc ls = if k = 0 then (List.rev acc, ls) else
+                match ls with
+                | hl :: ls' -> let hc = { toks = tokens hl } in
+                  if next hc <> "HDR" then failwith "expected HDR";
+                  let n = next_int hc in
+                  take_h (k - 1) (List.init n (fun _ -> n_of_int (next_int hc)) :: acc) ls'
+                | [] -> failwith "csv truncated" in
+            let (hdr, rest1) = take_h nh [] rest in
+            let (nrec, rest2) = (match rest1 with
+              | nl :: r -> let nc = { toks = tokens nl } in if next nc <> "NREC" then failwith "expected NREC"; (next_int nc, r)
+              | [] -> failwith "csv truncated") in
+            let rec take_r k acc ls = if k = 0 then (List.rev acc, ls) else
+                match ls with
+                | rl :: ls' -> let rc = { toks = tokens rl } in
+                  if next rc <> "REC" then failwith "expected REC";
+                  let n = next_int rc in
+                  take_r (k - 1) (List.init n (fun _ -> next_str rc) :: acc) ls'
+                | [] -> failwith "csv truncated" in
+            let (recs, rest3) = take_r nrec [] rest2 in
+            (match m_create big false hdr recs with
+             | CreateOk s ->
+               pr "CSV %s OK\n" cid;
+               Hashtbl.replace datasets cid (ingest hdr recs);
+               Hashtbl.replace stores (cid, WMem) (Ok s); Hashtbl.replace stores (cid, WBig) (Ok s)
+             | CreateErr -> pr "CSV %s ERR\n" cid
+             | CreatePanic -> pr "CSV %s PANIC\n" cid);
+            pr "NORM %s %d" cid (List.length hdr);
+            List.iter (fun h -> pr_str (normalize_header h)) hdr; pr "\n";
+            go rest3
+          | "LOADINDEX" -> go rest
           | "DROP" ->
             let id = next c in
             Hashtbl.remove datasets id;
@@ -147,7 +180,7 @@ let dp (lines : string list) =
             pr_result "Q" qid r;
             if spec = 1 then pr_result "S" qid (spec_execute (Hashtbl.find datasets ds) q);
             go rest
-          | "HIST" | "ENDHIST" | "CONC" | "LRUD" | "CRASH" | "CLOBBER" | "READONLY" -> go rest
+          | "HIST" | "ENDHIST" | "CONC" | "LRUD" | "CRASH" | "CLOBBER" | "READONLY" | "ADDROW" -> go rest
           | "DAMAGE" ->
             let cid = next c in let ds = next c in let mode = next c in
             let _seed = next c in
@@ -446,6 +479,80 @@ let drv (lines : string list) =
       | RRows f -> (let name = Hashtbl.fold (fun k v acc -> if v = int_of_n f then k else acc) files "?" in "ROWSOF " ^ name)
       | RClosed -> "CLOSED" | RPanic -> "PANIC" | RHang -> "HANG" | RMisuse -> "MISUSE")) labels rs
 
+(* ---------------------------------------------------------------- gRPC batch handler (C13 C14) *)
+let rec next_wexpr c : wexpr =
+  match next c with
+  | "U" -> WUnset
+  | "E" -> let col = next_str c in let v = next_str c in let ph = next_int c in WEq (col, v, n_of_int (max ph 0))
+  | "N0" -> WNot None
+  | "N" -> WNot (Some (next_wexpr c))
+  | "A" -> let k = next_int c in WAnd (List.init k (fun _ -> next_wexpr c))
+  | "O" -> let k = next_int c in WOr (List.init k (fun _ -> next_wexpr c))
+  | t -> failwith ("bad wire token " ^ t)
+
+let z_of_int (i : int) : z = if i = 0 then Z0 else if i > 0 then Zpos (pos_of_int i) else Zneg (pos_of_int (- i))
+let int_of_z (x : z) : int = match x with Z0 -> 0 | Zpos p -> int_of_pos p | Zneg p -> - (int_of_pos p)
+
+let wire (lines : string list) =
+  let rows = ref [] in
+  let index = ref None in
+  let get_index () = match !index with
+    | Some ix -> ix
+    | None -> let ix = (match m_build_store WMem !rows with Ok s -> m_open_index false s | _ -> Err) in index := Some ix; ix in
+  let rec go = function
+    | [] -> ()
+    | l :: rest ->
+      let c = { toks = tokens l } in
+      (match c.toks with
+       | [] -> go rest
+       | _ ->
+         (match next c with
+          | "DATASET" ->
+            let _id = next c in let nrows = next_int c in
+            let rec take k acc ls = if k = 0 then (List.rev acc, ls) else
+                match ls with
+                | [] -> failwith "dataset truncated"
+                | rl :: ls' ->
+                  let rc = { toks = tokens rl } in
+                  if next rc <> "R" then failwith "expected R";
+                  let k' = next_int rc in
+                  let row = List.init k' (fun _ -> let a = next_str rc in let b = next_str rc in (a, b)) in
+                  take (k - 1) (row :: acc) ls' in
+            let (rs, rest') = take nrows [] rest in
+            rows := rs; index := None; go rest'
+          | "REQ" ->
+            let rid = next c in let nq = next_int c in
+            let rec take k acc ls = if k = 0 then (List.rev acc, ls) else
+                match ls with
+                | [] -> failwith "request truncated"
+                | ql :: ls' ->
+                  let qc = { toks = tokens ql } in
+                  if next qc <> "WQ" then failwith "expected WQ";
+                  let id = next_int qc in
+                  let e = (match next qc with "NONE" -> None | "X" -> Some (next_wexpr qc) | _ -> failwith "bad WQ") in
+                  if next qc <> "GB" then failwith "expected GB";
+                  let m = next_int qc in
+                  let gb = List.init m (fun _ -> next_str qc) in
+                  take (k - 1) ({ wq_id = z_of_int id; wq_expr = e; wq_group_by = gb } :: acc) ls' in
+            let (qs, rest') = take nq [] rest in
+            (match get_index () with
+             | Ok ix ->
+               (match m_serve ix qs with
+                | Ok rs ->
+                  pr "REQ %s OK %d" rid (List.length rs);
+                  List.iter (fun r ->
+                    pr " | %d %d %d" (int_of_z r.wr_id) (int_of_n r.wr_count) (List.length r.wr_groups);
+                    List.iter (fun (fields, cnt) ->
+                      pr " %d" (List.length fields);
+                      List.iter (fun (col, v) -> pr_str col; pr_str v) fields;
+                      pr " %d" (int_of_n cnt)) r.wr_groups) rs;
+                  pr "\n"
+                | Err -> pr "REQ %s ERR\n" rid | Panic -> pr "REQ %s PANIC\n" rid | Hang -> pr "REQ %s HANG\n" rid)
+             | _ -> pr "REQ %s NOINDEX\n" rid);
+            go rest'
+          | t -> failwith ("wire: bad line: " ^ l))) in
+  go lines
+
 let () =
   let prop = Sys.argv.(1) and path = Sys.argv.(2) in
   let lines = read_lines path in
@@ -455,5 +562,6 @@ let () =
    | "parse" -> parse lines
    | "sql" -> sql lines
    | "drv" -> drv lines
+   | "wire" -> wire lines
    | _ -> failwith ("unknown property " ^ prop));
   print_string (Buffer.contents out)
